@@ -27,8 +27,13 @@ impl Known {
             for f in arr {
                 let id = f.get("id").and_then(|x| x.as_str()).unwrap_or("");
                 let prop = f.get("property").and_then(|x| x.as_str()).unwrap_or("");
+                let also = f
+                    .get("also_seen_by")
+                    .and_then(|x| x.as_array())
+                    .map(|a| a.iter().any(|p| p.as_str() == Some(property)))
+                    .unwrap_or(false);
                 let status = f.get("status").and_then(|x| x.as_str()).unwrap_or("open");
-                if prop == property && status == "open" && !id.is_empty() {
+                if (prop == property || also) && status == "open" && !id.is_empty() {
                     k.open.insert(
                         id.to_string(),
                         f.get("signature")
